@@ -286,13 +286,24 @@ def _pair_job(items):
 
 
 def _touch(fa, fb):
-    """Footprints touch: a location of one equals, or is a directory prefix of, a location of the other."""
-    la = [e[0] if isinstance(e, tuple) else e for e in fa]
-    lb = [e[0] if isinstance(e, tuple) else e for e in fb]
-    for x in la:
-        for y in lb:
-            if x == y or x.startswith(y.rstrip("/") + "/") or y.startswith(x.rstrip("/") + "/"):
-                return True
+    """Footprints touch: a non-directory location of one equals, or is a directory prefix of, a location of the other."""
+    def split(f):
+        leaf, alle = [], []
+        for e in f:
+            loc, k = (e[0], e[1]) if isinstance(e, tuple) else (e, "f")
+            if "/blobs/" in loc or loc.startswith("sandbox/i/"):
+                continue
+            alle.append(loc)
+            if k != "d":
+                leaf.append(loc)
+        return leaf, alle
+    la, aa = split(fa)
+    lb, ab = split(fb)
+    for leafs, others in ((la, ab), (lb, aa)):
+        for x in leafs:
+            for y in others:
+                if x == y or y.startswith(x + "/"):
+                    return True
     return False
 
 
@@ -390,7 +401,7 @@ def run(tier, seed):
     res.coverage = dict(
         states=states, transitions=trans + len(singles) + 3 * len(pairs),
         traces_validated_against_impl=trans + len(singles) + 3 * len(pairs),
-        bfs=per, single_paths=len(singles), path_pairs=len(pairs), footprint_touching_pairs_local=n_touch,
+        bfs=per, single_paths=len(singles), path_pairs=len(pairs), owned_locations=n_loc, footprint_touching_pairs_local=n_touch,
         rejected_paths=nrej, exhaustive=(tier == "thorough"),
         rule="Part A: BFS over 27 store operations (store/has/fetch of 5 keys with str, bytes, None, object values; sync/fetch of a "
              "3-path window; reopen) against a dictionary model, state = model + physical state. Part B: each of the "
